@@ -607,6 +607,19 @@ def inject_client_table_overlay(scratch):
         fh.write("\n#[cfg(%s)]\n#[path = \"verif_overlay_cift.rs\"]\nmod verif_overlay_cift;\n" % cfg)
 
 
+def inject_memchan_overlay(scratch):
+    """C15, in-memory transport: harness module at the crate root (public API only); under
+    cfg(kani) ONLY, the tokio mpsc behind transport/channel.rs is the contract model
+    verif_env::mpsc_closing (with sender/receiver-gone semantics); native replay = real tokio."""
+    _common_inject(scratch, "any(kani, verif_replay)")
+    tsrc = os.path.join(scratch.repo, "tarpc", "src")
+    shutil.copy(os.path.join(VERIF, "overlay", "tarpc_overlay_memchan.rs"), os.path.join(tsrc, "verif_overlay_memchan.rs"))
+    _swap(os.path.join(tsrc, "transport", "channel.rs"),
+          [("use tokio::sync::mpsc;", "#[cfg(not(kani))]\nuse tokio::sync::mpsc;\n#[cfg(kani)]\nuse crate::verif_env::mpsc_closing as mpsc;")])
+    with open(os.path.join(tsrc, "lib.rs"), "a") as fh:
+        fh.write("\n#[cfg(any(kani, verif_replay))]\n#[path = \"verif_overlay_memchan.rs\"]\nmod verif_overlay_memchan;\n")
+
+
 def inject_c13_overlay(scratch):
     """C13: harness module next to channels_per_key.rs (private constructor), environment models
     for tokio mpsc / FnvHashMap swapped in under cfg(kani) ONLY (the native replay uses the real
